@@ -2,7 +2,7 @@
    unregister call returned.  Statements only. *)
 From Coq Require Import List ZArith Bool.
 From Ivv Require Import Core.Kernel Core.CoreTypes Core.CoreFd Core.CoreModel Core.Monitors Core.CoreSpec
-  Core.CoreRel.
+  Core.CoreInv Core.CoreRel.
 Import ListNotations.
 Local Open Scope Z_scope.
 
@@ -17,6 +17,24 @@ Theorem C01_no_call_after_unregister :
   forall sc, wf_scenario sc -> mon_C01 (run_scenario sc) = true.
 Proof. exact core_mon_C01. Qed.
 Print Assumptions C01_no_call_after_unregister.
+
+(* The mechanism: when iv_fd_unregister returns, the descriptor object is on no
+   internal list, is not the descriptor being dispatched, and (epoll) the kernel
+   interest set no longer has an entry for it, (poll) it has no slot in the
+   pollfd array -- so nothing can reach the object any more and it may be freed.  (k < 16: a user
+   descriptor object; the descriptors inside raw events are unregistered through iv_event_raw_unregister.) *)
+Theorem C01_fd_unregister_unlinks :
+  forall s k s', Inv s -> k < 16 -> registered (getfd s k) = true -> fd_unregister s k = R s' ->
+    Inv s' /\ ~ In k (active s') /\ ~ In k (notify s') /\ ~ In k (pkeys s') /\
+    handled s' <> Some k /\ ep_find (ep (kern s')) (fdnum (getfd s' k)) = false.
+Proof. exact fd_unregister_unlinks. Qed.
+Print Assumptions C01_fd_unregister_unlinks.
+
+(* the model never reaches an out-of-model access or a library abort *)
+Theorem C01_no_crash :
+  forall sc, wf_scenario sc -> ~ In TCrash (run_scenario sc) /\ ~ In TFatal (run_scenario sc).
+Proof. exact core_no_crash. Qed.
+Print Assumptions C01_no_crash.
 
 Example C01_nonvacuous :
   let sc := {| sc_backend := 0; sc_faults := no_faults; sc_limit := 8;
